@@ -237,6 +237,7 @@ fn dispatch(name: &str, a: &Args) -> bool {
     "libm_validate" => libmval::validate(a.u64("seed")),
     "oracle_selftest" => libmval::oracle_selftest(a.u64("seed")),
     "f4_scan" => libmval::f4_scan(a.u64("seed")),
+    "c03_scan" => libmval::c03_scan(a.u64("seed")),
     "c17_native" => c17::p_c17_native(a.f64("lon"), a.f64("lat")),
     // a defect of pm1_offset_decompose (private) shows through proj at longitudes whose |lon| * 4/pi is the failing argument
     "c17_pm1" => {
